@@ -12,6 +12,7 @@ from ..ref import quat as rq
 PROP = "C11"
 LEVEL = "exploration"
 SHARDS = {"quick": 2, "thorough": 16}
+THOROUGH_DEPTH = 30      # thorough tier = this many times the base thorough budget (VERIF_DEPTH overrides)
 ROUTES = ["Quaternion(v)", "QuaternionArray(V)", "DCM(R)", "DCM(q=)", "DCM(x,y,z)", "DCM(rpy=)", "DCM(euler=)", "DCM(axang=)",
           "Quaternion.__add__", "Quaternion.__sub__", "random_attitudes", "Quaternion(random=True)", "QuaternionArray(int)",
           "QuaternionArray.rotate_by", "QuaternionArray.average", "reject/Quaternion", "reject/QuaternionArray", "reject/DCM",
